@@ -40,11 +40,13 @@ pub enum Hist {
     ByValue,
     FromRegister,
     LeftFold,
+    /// acc = part + acc: the receiver of every merge is the smaller register
+    RightFold,
     Balanced,
     RandomTree,
     RandomTreeInterleaved,
 }
-const HISTS: [Hist; 7] = [Hist::OneByOne, Hist::ByValue, Hist::FromRegister, Hist::LeftFold, Hist::Balanced, Hist::RandomTree, Hist::RandomTreeInterleaved];
+const HISTS: [Hist; 8] = [Hist::OneByOne, Hist::ByValue, Hist::FromRegister, Hist::LeftFold, Hist::RightFold, Hist::Balanced, Hist::RandomTree, Hist::RandomTreeInterleaved];
 
 #[derive(Clone, Debug, Serialize, Deserialize)]
 pub struct Case {
@@ -190,6 +192,16 @@ fn run_history<F: Fl>(c: &Case, data: &[F], ms: &mut MergeStats) -> F {
                     for k in &regs[1..] {
                         note_reg(k, ms);
                         acc += *k;
+                    }
+                    acc.value()
+                }
+                Hist::RightFold => {
+                    let mut acc = regs[0];
+                    for k in &regs[1..] {
+                        note_reg(&acc, ms);
+                        let mut part = *k;
+                        part += acc;
+                        acc = part;
                     }
                     acc.value()
                 }
@@ -342,7 +354,7 @@ fn make_case(seed: u64, i: u64, quick: bool) -> Case {
     let mut r = Rng::from(&[seed, 0xc08, i]);
     let f32 = i % 2 == 0;
     let family = FAMILIES[(i / 2 % 8) as usize];
-    let hist = HISTS[(i / 16 % 7) as usize];
+    let hist = HISTS[(i / 16 % 8) as usize];
     // length ladder: mostly short, some long
     let n = match r.below(100) {
         0..=39 => r.range(1, 99) as usize,
@@ -368,7 +380,7 @@ pub fn run(run: &Arc<Run>) {
     let quick = run.cfg.quick();
     run.set_rule(format!(
         "seeded histories: 8 data families (constants 1.1/0.1/1/3/0.7, same-sign uniform, log-uniform 2^±40 (f32: ±30), mixed sign, large+many small-large, alternating near-cancelling, tiny increments on a large base, dyadic) x f32/f64 x lengths 1..10^6 ({} in the thorough tier) \
-         x 7 histories (+= x; s = s + x; += KahanSum::from(x); registers over chunks of size 1,2,3,7,1000,random merged by left fold / balanced tree / random tree / random tree with interleaved scalars). \
+         x 8 histories (+= x; s = s + x; += KahanSum::from(x); registers over chunks of size 1,2,3,7,1000,random merged by left fold / right fold (receiver is the smaller register) / balanced tree / random tree / random tree with interleaved scalars). \
          Oracle: exact BigInt sum; bound |value - S| <= {} u sum|x|. Naive summation runs alongside as a sensitivity witness. For += histories the sums inside Arithmetic are judged too (mean*n; variance reconstructed). \
          distinct = distinct (type, family, n, data seed, history, chunking); all non-trivial.",
         if quick { "10^6" } else { "10^7 f32 / 4*10^6 f64" },
